@@ -1947,8 +1947,17 @@ func (sc *serverConn) writeLoop() {
 }
 
 func (sc *serverConn) handleSettings(st *Settings) {
-	st.CopyTo(&sc.clientS)
-	sc.enc.SetMaxTableSize(sc.clientS.HeaderTableSize())
+	// Only what the frame names changes (RFC 7540 6.5.3).
+	st.mergeInto(&sc.clientS)
+
+	if st.Has(HeaderTableSize) {
+		// the smallest size the frame went through has to be signalled too
+		if st.tableSizeMin < st.tableSize {
+			sc.enc.SetMaxTableSize(st.tableSizeMin)
+		}
+
+		sc.enc.SetMaxTableSize(st.tableSize)
+	}
 
 	// The per-stream send windows are adjusted in handleStreams, where the
 	// stream table lives. The connection-level window is not affected by
